@@ -111,7 +111,7 @@ def run_notify(plan):
         svc = Svc(1)
         svc.transport = FakeTransport(on_send)
         eg = service.SimpleEventgroup(svc, id=1)
-        eg.values = {1: b"a", 2: b"bc"}
+        eg.values = {1: b"a", 2: b"bc", 3: b"d", 4: b"ef", 5: b"g"}
         svc.register_eventgroup(eg)
         return svc, eg
     svc, eg = loop.run_until_complete(setup())
@@ -150,11 +150,13 @@ def notify_traces(seed, count):
         eps = ["e1", "e2", "e3"]
         for ep in eps:
             if rng.random() < 0.8:
-                plan.append(("burn", ep, rng.choice([65535 - rng.randint(1, 12), 65533, 65534, 65535, 3])))
+                plan.append(("burn", ep, rng.choice([65535 - rng.randint(1, 12), 65533, 65534, 65535, 3, 65535 - rng.randint(1, 6),
+                                                     2 * 65535 - rng.randint(0, 8)])))
         for ep in eps:
             plan.append(("sub", ep))
         for _ in range(rng.randint(4, 12)):
-            plan.append(("notify", rng.choice([[1], [2], [1, 2]])))
+            # one datagram carries one notification per event: rounds of up to five events straddle the wrap in every alignment
+            plan.append(("notify", rng.choice([[1], [2], [1, 2], [1, 2, 3], [3, 1, 2, 4], [1, 2, 3, 4, 5], [5, 4, 3]])))
         out.append({"cfg": cfg, "ev": monpass.add_adv(run_notify(plan)), "sched": plan, "mode": "notify"})
     return out
 
